@@ -49,6 +49,54 @@ def s1(n, k):
     return toks(n[k])[0] if n[k] != 'x' else ''
 
 
+def comment_between_parts(kind, text):
+    """D43: does the construct's own text carry a comment among its direct parts (outside nested
+    parentheses/braces and outside string and character literals)?  kind 'block': directly inside the braces;
+    'for': also inside the header's parentheses."""
+    if kind in ('break', 'continue', 'binary'):
+        return False          # these are read by searching the children / by field name: comments do not disturb them
+    limit = {'block': 1, 'for': 1, 'call': 1, 'new': 1}.get(kind, 0)
+    if kind == 'class':
+        text = text.split('{', 1)[0]          # the header; the body is the members' business
+    if kind == 'method':
+        text = text.split('{', 1)[0]
+    depth, i, n = 0, 0, len(text)
+    while i < n:
+        ch = text[i]
+        if ch == '"' or ch == "'":
+            j = i + 1
+            while j < n and text[j] != ch:
+                j += 2 if text[j] == '\\' else 1
+            i = j + 1
+            continue
+        if text.startswith('/*', i) or text.startswith('//', i):
+            if depth <= limit:
+                return True
+            j = text.find('*/', i + 2) if text.startswith('/*', i) else text.find('\n', i)
+            i = n if j < 0 else j + 2
+            continue
+        if ch in '({[':
+            depth += 1
+        elif ch in ')}]':
+            depth -= 1
+        i += 1
+    return False
+
+
+def split_known(bad, truth_by_line, known):
+    """moves the failures explained by D43 (a comment between the parts of the construct) out of `bad`"""
+    keep = []
+    for b in bad:
+        kind = b[0].split('-')[0]
+        line = b[1] if isinstance(b[1], int) else (b[2] if len(b) > 2 and isinstance(b[2], int) else None)
+        ts = [t for t in truth_by_line.get(line, []) if t['kind'] == kind or (kind == 'binary' and t['kind'] == 'binary')]
+        if ts and any(comment_between_parts(t['kind'], t['text']) for t in ts):
+            known['D43-comment-child'] += 1
+        else:
+            keep.append(b)
+    return keep
+
+
 def oracle_decl_attrs(rec):
     """C05: classes, methods, variables vs generator ground truth. -> list of failures"""
     bad = []
@@ -91,7 +139,12 @@ def oracle_decl_attrs(rec):
             exp = dict(name=t['name'], vis=t['vis'], dtype=t['dtype'], scope=t['scope'], init=nows(t['init'] or ''))
             if got != exp:
                 bad.append(('variable-attrs', t['line'], exp, got))
-    return bad, cnt
+    by_line = {}
+    for t in rec['case'].get('truth', []):
+        by_line.setdefault(t['line'], []).append(t)
+    known = Counter()
+    bad = split_known(bad, by_line, known)
+    return bad, cnt, known
 
 
 def oracle_expr_attrs(rec):
@@ -166,6 +219,10 @@ def oracle_expr_attrs(rec):
                     bad.append(('block-attrs', t['line'], exp, tk))
             elif [x if x is not None else None for x in tk] != exp:
                 bad.append((k + '-attrs', t['line'], exp, tk))
+    by_line = {}
+    for t in rec['case'].get('truth', []):
+        by_line.setdefault(t['line'], []).append(t)
+    bad = split_known(bad, by_line, known)
     return bad, known, cnt
 
 
@@ -215,7 +272,7 @@ def oracle_spec_vs_truth(rec, kinds):
         elif k == 'variable':
             exp = dict(name=[t['name']], dtype=[t['dtype']], scope=[t['scope']], vis=[t['vis']])
             a = dict(a)
-            if nows(a.pop('value', [''])[0]) != nows(t['init'] or ''):
+            if nows(a.pop('value', [''])[0]) != nows(t['init'] or '') and not comment_between_parts(k, t['text']):
                 bad.append((k, t['line'], 'value', t['init'], a))
         elif k == 'call':
             exp = dict(name=[t['name']], args=t['args'])
@@ -242,7 +299,10 @@ def oracle_spec_vs_truth(rec, kinds):
             exp = dict(stmts=t['stmts'])
             a = {'stmts': a.get('stmts')}
         if {kk: a.get(kk) for kk in exp} != exp:
-            bad.append((k, t['line'], exp, {kk: a.get(kk) for kk in exp}))
+            if comment_between_parts(k, t['text']):
+                cnt['comment_between_parts_' + k] += 1      # D43 inputs: modifiers text etc. carry the comment
+            else:
+                bad.append((k, t['line'], exp, {kk: a.get(kk) for kk in exp}))
     return bad, cnt
 
 
@@ -290,15 +350,19 @@ def run_oracles(pid, recs, res, cst):
             if sbad and not any('decoder specification' in t for t in res.tie_broken):
                 res.tie_broken.append('the decoder specification (Scan/Decode.v) disagrees with generator ground truth: %s' % str(sbad[0])[:400])
         if pid == 'C05' and c['origin'] == 'family':
-            bad, cnt = oracle_decl_attrs(r)
+            bad, cnt, known5 = oracle_decl_attrs(r)
             stats.update({'decl_' + k: v for k, v in cnt.items()})
+            if known5:
+                res.known_hits.setdefault('D43', Counter()).update(known5)
             if bad:
                 res.violations.append(replay_payload(pid, c, 'declaration attributes differ from the source', bad[:3]))
         if pid == 'C06' and c['origin'] == 'family':
             bad, known, cnt = oracle_expr_attrs(r)
             stats.update({'occ_' + k: v for k, v in cnt.items()})
-            if known:
-                res.known_hits.setdefault('D29', Counter()).update(known)
+            if known.get('D29-block-braces'):
+                res.known_hits.setdefault('D29', Counter()).update({'D29-block-braces': known['D29-block-braces']})
+            if known.get('D43-comment-child'):
+                res.known_hits.setdefault('D43', Counter()).update({'D43-comment-child': known['D43-comment-child']})
             if bad:
                 res.violations.append(replay_payload(pid, c, 'expression/statement attributes differ from the source', bad[:3]))
     return stats, kinds
@@ -401,6 +465,8 @@ def check(pid, tier, seed, t0, st, replay):
             hits[sig] = 'within-file identity collision (identity has no position) for kinds %s: %d occurrences lost [pinned by TestBuildGraphFromAST]' % (sorted(c), sum(c.values()))
         elif sig == 'D29':
             hits[sig] = 'BlockStmt statements include the brace tokens: %d blocks [pinned by TestParseBlockStatement]' % sum(c.values())
+        elif sig == 'D43':
+            hits[sig] = 'a comment written between the parts of a declaration or statement is taken for one of the parts (attributes read by child position): %d constructs' % sum(c.values())
     listed = {k['signature'] for k in known_findings(pid) if k.get('status') == 'known'}
     for sig in list(hits):
         if sig not in listed:
